@@ -278,6 +278,14 @@ class Program(object):
         # several instantiations are fine for templates, but a non-template must be unique
         return r[0]
 
+    def owner(self, func):
+        """the named function a (possibly nested) lambda is written in; func itself when it is not a lambda"""
+        seen = 0
+        while func.is_lambda and func.parent in self.funcs and seen < 8:
+            func = self.funcs[func.parent]
+            seen += 1
+        return func
+
     def lambdas_in(self, func):
         return [f for f in self.funcs.values() if f.parent == func.id]
 
